@@ -38,6 +38,7 @@ def gen(ctx):
         cases.append(rhistory_case(r, r.choice(NUMTYPES), r.choice(['little', 'big']), r.choice(p04.ATOMS),
                                    r.choice(INDEXTYPES), r.choice(starts), letters))
     cases += raglib.trailing_empty_cases(r)
+    cases += raglib.index_limit_cases(r)
     return cases
 
 
